@@ -2,9 +2,12 @@ package main
 
 import (
 	"fmt"
+	"go/constant"
 	"go/token"
 	"go/types"
+	"sort"
 	"strings"
+	"sync"
 
 	"golang.org/x/tools/go/ssa"
 )
@@ -457,6 +460,13 @@ type c07Origin struct {
 //
 // complete is false when the walk was cut (depth): the list is then not exhaustive and nothing may be concluded from it.
 func c07Origins(w *World, f *c07Frame, v ssa.Value, guards map[string]string) (out []c07Origin, complete bool) {
+	return c07OriginsUntil(w, f, v, guards, nil)
+}
+
+// c07OriginsUntil is c07Origins with a stop predicate: a value for which stop holds is reported as an origin as it stands
+// (with the facts collected so far) instead of being followed further — used where the clause is about a value being the
+// result of a particular kind of computation (an application of the hash table) rather than about its ingredients.
+func c07OriginsUntil(w *World, f *c07Frame, v ssa.Value, guards map[string]string, stop func(ssa.Value) bool) (out []c07Origin, complete bool) {
 	complete = true
 	type pk struct {
 		f *c07Frame
@@ -474,6 +484,10 @@ func c07Origins(w *World, f *c07Frame, v ssa.Value, guards map[string]string) (o
 		fi := w.Info(f.Fn)
 		if in, ok := v.(ssa.Instruction); ok && in.Parent() == f.Fn && in.Block() != nil {
 			g = c07Union(g, f.liftAll(fi.GuardsOf(in)))
+		}
+		if stop != nil && stop(v) {
+			out = append(out, c07Origin{v, f, g})
+			return
 		}
 		switch x := v.(type) {
 		case *ssa.Phi:
@@ -1036,4 +1050,657 @@ func c07WrapperGenerators(w *World, wrapper *ssa.Function) (uses []c07GenUse, wh
 		}
 	}
 	return uses, why
+}
+
+// ---- the crypto.Hash -> digest.Algorithm relation ------------------------------------
+//
+// The clauses "signer and verifier use the same table", "the table covers the hash of every key spec" and "the generator is
+// invoked with table[hash of the key]" are statements about a *relation* R ⊆ crypto.Hash × digest.Algorithm and about values
+// that are R applied to a key. How the relation is written down is not part of the property. Two spellings say the same:
+//
+//   - a package-level map[crypto.Hash]digest.Algorithm initialised by a literal and never written afterwards:
+//     R = the literal's entries; an application is m[k] (value, and the comma-ok answer "k ∈ dom R");
+//   - a module function f(crypto.Hash) (digest.Algorithm, bool) | (digest.Algorithm, error) | digest.Algorithm:
+//     R = {(h, a) | f(h) answers "found" with a}, read off by abstract interpretation of f's body once per hash value
+//     (c07EvalHashFn); an application is f(k) (result 0, and the found answer: result 1 true / nil, or result 0 != "").
+//
+// A table is recognised by what it is (its type / signature), in whatever product package it is declared, never by its
+// name. The relation of a function is accepted only when, for every hash value tried, all paths through f agree on one
+// definite answer and a miss delivers the zero algorithm — exactly what indexing a map gives — so that every rule that
+// judges an application m[k] judges f(k) the same way.
+
+type c07HashTable struct {
+	Global *ssa.Global       // the map variable, or
+	Fn     *ssa.Function     // the function
+	Rel    map[string]string // hash constant (decimal) -> digest algorithm; nil: could not be read (Why)
+	Why    string
+	Steps  int
+}
+
+func (t *c07HashTable) name() string {
+	if t.Global != nil {
+		return desc(t.Global)
+	}
+	return "func:" + fnName(t.Fn)
+}
+
+func (t *c07HashTable) pkg() *types.Package {
+	if t.Global != nil {
+		return t.Global.Pkg.Pkg
+	}
+	return fnPkg(t.Fn)
+}
+
+func (t *c07HashTable) pos() token.Pos {
+	if t.Global != nil {
+		return t.Global.Pos()
+	}
+	return t.Fn.Pos()
+}
+
+func c07IsHash(t types.Type) bool { return t.String() == "crypto.Hash" }
+func c07IsDigestAlgorithm(t types.Type) bool {
+	return strings.HasSuffix(t.String(), "go-digest.Algorithm")
+}
+
+// c07TableSignature: func(crypto.Hash) digest.Algorithm [, bool | error], a plain package-level function with a body.
+func c07TableSignature(fn *ssa.Function) bool {
+	if fn == nil || fn.Blocks == nil || fn.Parent() != nil || fn.Synthetic != "" || fn.Signature.Recv() != nil || fn.TypeParams().Len() != 0 {
+		return false
+	}
+	ps, rs := fn.Signature.Params(), fn.Signature.Results()
+	if ps.Len() != 1 || len(fn.Params) != 1 || !c07IsHash(ps.At(0).Type()) || rs.Len() < 1 || rs.Len() > 2 || !c07IsDigestAlgorithm(rs.At(0).Type()) {
+		return false
+	}
+	if rs.Len() == 2 {
+		b, isB := rs.At(1).Type().Underlying().(*types.Basic)
+		return isErrorType(rs.At(1).Type()) || (isB && b.Kind() == types.Bool)
+	}
+	return true
+}
+
+type c07TableSet struct {
+	Tables []*c07HashTable
+	Apps   []*c07TableApp
+}
+
+var (
+	c07TableMu   sync.Mutex
+	c07TableMemo = map[*World]*c07TableSet{}
+)
+
+// c07HashTables: every hash table of the product code with its relation, and every application of one.
+func c07HashTables(w *World) *c07TableSet {
+	c07TableMu.Lock()
+	defer c07TableMu.Unlock()
+	if ts, ok := c07TableMemo[w]; ok {
+		return ts
+	}
+	ts := &c07TableSet{}
+	c07TableMemo[w] = ts
+	// maps
+	byGlobal := map[*ssa.Global]*c07HashTable{}
+	for _, p := range w.Product {
+		var names []string
+		for n := range p.Members {
+			names = append(names, n)
+		}
+		sort.Strings(names)
+		for _, n := range names {
+			g, ok := p.Members[n].(*ssa.Global)
+			if !ok {
+				continue
+			}
+			pt, ok := g.Type().Underlying().(*types.Pointer)
+			if !ok || !isHashDigestMap(pt.Elem()) {
+				continue
+			}
+			t := &c07HashTable{Global: g}
+			rel := strings.TrimPrefix(strings.TrimPrefix(p.Pkg.Path(), modPath), "/")
+			if e, pp := w.pkgVarInit(rel, g.Name()); e == nil {
+				t.Why = desc(g) + " has no initialiser"
+			} else if m, ok := mapLiteral(pp, e); !ok {
+				t.Why = desc(g) + " is not initialised by a map literal"
+			} else if why := c07MapWritten(w, g); why != "" {
+				// the literal is the relation only as long as nobody changes the map
+				t.Why = why
+			} else {
+				t.Rel = m
+			}
+			byGlobal[g] = t
+			ts.Tables = append(ts.Tables, t)
+		}
+	}
+	// functions (a function may consult a map, or another function: evaluated on demand, cycles cut)
+	byFn := map[*ssa.Function]*c07HashTable{}
+	for _, fn := range w.Funcs {
+		if c07TableSignature(fn) {
+			t := &c07HashTable{Fn: fn}
+			byFn[fn] = t
+			ts.Tables = append(ts.Tables, t)
+		}
+	}
+	universe := c07HashUniverse(w, ts.Tables)
+	for _, t := range ts.Tables {
+		if t.Fn != nil {
+			c07ReadHashFn(w, t, universe, byGlobal)
+		}
+	}
+	// applications
+	for _, fn := range w.Funcs {
+		for _, b := range fn.Blocks {
+			for _, in := range b.Instrs {
+				switch x := in.(type) {
+				case *ssa.Lookup:
+					ld, ok := x.X.(*ssa.UnOp)
+					if !ok || ld.Op != token.MUL {
+						continue
+					}
+					g, ok := ld.X.(*ssa.Global)
+					if !ok || byGlobal[g] == nil {
+						continue
+					}
+					app := &c07TableApp{In: fn, Table: byGlobal[g], Key: x.Index, At: x}
+					if x.CommaOk {
+						app.Val, app.Found = c07Extract(x, 0), c07Extract(x, 1)
+					} else {
+						app.Val = x
+					}
+					ts.Apps = append(ts.Apps, app)
+				case *ssa.Call:
+					g := staticCallee(x)
+					if g == nil || byFn[g] == nil || len(x.Call.Args) != 1 {
+						continue
+					}
+					app := &c07TableApp{In: fn, Table: byFn[g], Key: x.Call.Args[0], At: x}
+					if g.Signature.Results().Len() == 2 {
+						app.Val, app.Found = c07Extract(x, 0), c07Extract(x, 1)
+					} else {
+						app.Val = x
+					}
+					ts.Apps = append(ts.Apps, app)
+				}
+			}
+		}
+	}
+	return ts
+}
+
+func c07Extract(tuple ssa.Value, k int) ssa.Value {
+	if tuple.Referrers() == nil {
+		return nil
+	}
+	for _, r := range *tuple.Referrers() {
+		if ex, ok := r.(*ssa.Extract); ok && ex.Index == k {
+			return ex
+		}
+	}
+	return nil
+}
+
+// c07TableApp: one application of a hash table to a key.
+type c07TableApp struct {
+	In    *ssa.Function
+	At    ssa.Instruction
+	Table *c07HashTable
+	Key   ssa.Value
+	Val   ssa.Value // the algorithm delivered (nil: not used)
+	Found ssa.Value // the comma-ok / bool / error answer (nil: the application has none, or it is not used)
+}
+
+// foundLabels: the branch facts that say "the key was in the relation" for this application, as the engine prints them.
+// With a comma-ok / bool answer: T(answer); with an error answer: EQ(answer,nil) — by the way the relation of a function
+// is read (c07ReadHashFn) the answer is true / nil exactly for the keys of the relation. Without an answer: the value is
+// not the zero algorithm (a miss delivers the zero algorithm, for a map by the language, for a function by c07ReadHashFn).
+func (a *c07TableApp) foundLabels() []string {
+	if a.Found != nil {
+		if isErrorType(a.Found.Type()) {
+			return []string{"EQ(" + desc(a.Found) + ",nil)"}
+		}
+		return []string{"T(" + desc(a.Found) + ")"}
+	}
+	if a.Val != nil {
+		return []string{"NE(" + desc(a.Val) + `,const:"")`}
+	}
+	return nil
+}
+
+// c07MapWritten: "" when the map variable holds, for the whole run of the program, the map its initialiser built —
+// it is stored only by the package initialiser, every other use loads it to index, range over or measure it.
+func c07MapWritten(w *World, g *ssa.Global) string {
+	fns := w.Funcs
+	if ini := g.Pkg.Func("init"); ini != nil {
+		fns = append(append([]*ssa.Function{}, fns...), ini)
+	}
+	seen := map[*ssa.Function]bool{}
+	for _, fn := range fns {
+		if seen[fn] {
+			continue
+		}
+		seen[fn] = true
+		for _, b := range fn.Blocks {
+			for _, in := range b.Instrs {
+				uses := false
+				for _, op := range in.Operands(nil) {
+					if op != nil && *op == ssa.Value(g) {
+						uses = true
+					}
+				}
+				if !uses {
+					continue
+				}
+				switch x := in.(type) {
+				case *ssa.Store:
+					if x.Addr == ssa.Value(g) && fn.Synthetic != "" && fn.Name() == "init" && fn.Pkg == g.Pkg {
+						continue
+					}
+					return desc(g) + " is assigned in " + fnName(fn)
+				case *ssa.UnOp:
+					if x.Op != token.MUL || x.Referrers() == nil {
+						return "the address of " + desc(g) + " is used in " + fnName(fn)
+					}
+					for _, r := range *x.Referrers() {
+						switch y := r.(type) {
+						case *ssa.Lookup, *ssa.Range, *ssa.DebugRef:
+						case *ssa.Call:
+							if calleeName(y) != "builtin:len" {
+								return desc(g) + " is handed on in " + fnName(fn)
+							}
+						case *ssa.MapUpdate:
+							return desc(g) + " is written in " + fnName(fn)
+						default:
+							return desc(g) + " is handed on in " + fnName(fn)
+						}
+					}
+				case *ssa.DebugRef:
+				default:
+					return "the address of " + desc(g) + " is used in " + fnName(fn)
+				}
+			}
+		}
+	}
+	return ""
+}
+
+// c07HashUniverse: the hash values a table function is evaluated on — every crypto.Hash constant of package crypto, 0,
+// the keys of every map table, and every integer constant occurring in a table function together with its two
+// neighbours. A function whose paths are decided by comparing its parameter with constants (anything else makes the
+// interpreter fork both ways, and differing answers make the relation unreadable) cannot tell two values apart that
+// compare alike with all of its constants, and every such class has a member in this list; so the relation read on the
+// list is the relation of the function.
+func c07HashUniverse(w *World, tables []*c07HashTable) []int64 {
+	set := map[int64]bool{0: true}
+	if p := w.ByPath["crypto"]; p != nil {
+		for _, n := range p.Types.Scope().Names() {
+			if k, ok := p.Types.Scope().Lookup(n).(*types.Const); ok && c07IsHash(k.Type()) {
+				if v, exact := constant.Int64Val(k.Val()); exact {
+					set[v] = true
+				}
+			}
+		}
+	}
+	for _, t := range tables {
+		for k := range t.Rel {
+			var v int64
+			if _, err := fmt.Sscan(k, &v); err == nil {
+				set[v] = true
+			}
+		}
+		if t.Fn == nil {
+			continue
+		}
+		for _, b := range t.Fn.Blocks {
+			for _, in := range b.Instrs {
+				for _, op := range in.Operands(nil) {
+					if op == nil || *op == nil {
+						continue
+					}
+					if k, ok := (*op).(*ssa.Const); ok && k.Value != nil && k.Value.Kind() == constant.Int {
+						if v, exact := constant.Int64Val(k.Value); exact {
+							set[v-1], set[v], set[v+1] = true, true, true
+						}
+					}
+				}
+			}
+		}
+	}
+	var out []int64
+	for v := range set {
+		if v >= 0 {
+			out = append(out, v)
+		}
+	}
+	sort.Slice(out, func(i, j int) bool { return out[i] < out[j] })
+	return out
+}
+
+// c07ReadHashFn reads the relation of a table function: for every hash value h of the universe all paths of f(h) must
+// agree on (a, found) with a a definite non-empty string, or on a miss that delivers the zero algorithm.
+func c07ReadHashFn(w *World, t *c07HashTable, universe []int64, maps map[*ssa.Global]*c07HashTable) {
+	rel := map[string]string{}
+	for _, h := range universe {
+		outs, steps, why := c07EvalHashFn(w, t.Fn, AVal{Kind: aInt, Int: h}, maps, 0)
+		t.Steps += steps
+		if why == "" && len(outs) == 0 {
+			why = "no path returns"
+		}
+		var alg string
+		found, first := false, true
+		for _, o := range outs {
+			if why != "" {
+				break
+			}
+			a, f, w2 := c07TableAnswer(t.Fn, o)
+			switch {
+			case w2 != "":
+				why = w2
+			case !first && (a != alg || f != found):
+				why = "paths disagree"
+			}
+			alg, found, first = a, f, false
+		}
+		if why != "" {
+			t.Rel, t.Why = nil, fmt.Sprintf("%s(%d): %s", fnName(t.Fn), h, why)
+			return
+		}
+		if found {
+			rel[fmt.Sprint(h)] = alg
+		}
+	}
+	t.Rel = rel
+}
+
+// c07TableAnswer interprets one returned tuple of a table function.
+func c07TableAnswer(fn *ssa.Function, o []AVal) (alg string, found bool, why string) {
+	if len(o) == 0 || o[0].Kind != aStr {
+		return "", false, "the algorithm returned is not a definite constant"
+	}
+	alg = o[0].Str
+	switch {
+	case len(o) == 1:
+		found = alg != ""
+	case isErrorType(fn.Signature.Results().At(1).Type()):
+		switch o[1].Kind {
+		case aNil:
+			found = true
+		case aNonNil:
+		default:
+			return "", false, "the error returned is not definitely nil or non-nil"
+		}
+	default:
+		if o[1].Kind != aBool {
+			return "", false, "the found answer is not a definite boolean"
+		}
+		found = o[1].B
+	}
+	if found && alg == "" {
+		return "", false, "found, but the zero algorithm is returned"
+	}
+	if !found && alg != "" {
+		return "", false, "a miss returns " + alg + " instead of the zero algorithm (a map lookup yields the zero value)"
+	}
+	return alg, found, ""
+}
+
+// c07EvalHashFn runs fn abstractly on one input and returns the result tuple of every path that returns (why != "": the
+// run says nothing — a panic path, too many paths). Beyond the interpreter's own instruction set it understands
+//   - indexing a hash table map whose relation is known (plain and comma-ok),
+//   - errors.New / fmt.Errorf (a non-nil error),
+//   - a call of a one-parameter module function with a definite argument, evaluated the same way (all its paths must agree).
+func c07EvalHashFn(w *World, fn *ssa.Function, in AVal, maps map[*ssa.Global]*c07HashTable, depth int) (outs [][]AVal, steps int, why string) {
+	ip := &Interp{Fn: fn, TrackStrings: true, IntTypes: map[string]bool{"*": true}, MaxPaths: 2000}
+	lookup := func(l *ssa.Lookup, env map[ssa.Value]AVal) (val, ok AVal, known bool) {
+		ld, isLd := l.X.(*ssa.UnOp)
+		if !isLd || ld.Op != token.MUL {
+			return
+		}
+		g, isG := ld.X.(*ssa.Global)
+		if !isG || maps[g] == nil || maps[g].Rel == nil {
+			return
+		}
+		k := ip.val(l.Index, env)
+		if k.Kind != aInt {
+			return
+		}
+		a, has := maps[g].Rel[fmt.Sprint(k.Int)]
+		return AVal{Kind: aStr, Str: a}, AVal{Kind: aBool, B: has}, true
+	}
+	callee := func(call *ssa.Call, env map[ssa.Value]AVal) []AVal {
+		g := staticCallee(call)
+		if g == nil || g == fn || g.Blocks == nil || !w.IsProductFn(g) || len(g.Params) != 1 || len(call.Call.Args) != 1 || depth >= 2 {
+			return nil
+		}
+		a := ip.val(call.Call.Args[0], env)
+		if a.Kind != aInt && a.Kind != aStr {
+			return nil
+		}
+		o2, s2, w2 := c07EvalHashFn(w, g, a, maps, depth+1)
+		steps += s2
+		if w2 != "" || len(o2) == 0 {
+			return nil
+		}
+		for _, o := range o2[1:] {
+			for i := range o {
+				if o[i] != o2[0][i] {
+					return nil
+				}
+			}
+		}
+		return o2[0]
+	}
+	ip.Hook = func(in ssa.Instruction, env map[ssa.Value]AVal) (AVal, bool) {
+		switch x := in.(type) {
+		case *ssa.Lookup:
+			if !x.CommaOk {
+				if v, _, known := lookup(x, env); known {
+					return v, true
+				}
+			}
+		case *ssa.Extract:
+			switch t := x.Tuple.(type) {
+			case *ssa.Lookup:
+				if v, ok, known := lookup(t, env); known {
+					if x.Index == 0 {
+						return v, true
+					}
+					return ok, true
+				}
+			case *ssa.Call:
+				if r := callee(t, env); r != nil && x.Index < len(r) {
+					return r[x.Index], true
+				}
+			}
+		case *ssa.Call:
+			switch calleeName(x) {
+			case "errors.New", "fmt.Errorf":
+				return AVal{Kind: aNonNil}, true
+			}
+			if _, isTuple := x.Type().(*types.Tuple); !isTuple {
+				if r := callee(x, env); len(r) == 1 {
+					return r[0], true
+				}
+			}
+		}
+		return AVal{}, false
+	}
+	env := map[ssa.Value]AVal{}
+	if len(fn.Params) > 0 {
+		env[fn.Params[0]] = in
+	}
+	for _, o := range ip.Run(fn.Blocks[0], nil, env, nil, nil) {
+		if o.Ret == nil {
+			return nil, steps + ip.Steps, "a path panics"
+		}
+		var tup []AVal
+		for _, r := range o.Ret.Results {
+			tup = append(tup, ip.val(r, o.Env))
+		}
+		outs = append(outs, tup)
+	}
+	if ip.Overflow {
+		return nil, steps + ip.Steps, "too many paths"
+	}
+	return outs, steps + ip.Steps, ""
+}
+
+// c07PkgRelation: the relation of the hash tables of a package — those declared in it or, when it declares none (a table
+// shared through another package), those its functions apply. Several tables must all carry the same relation.
+func c07PkgRelation(w *World, rel string) (m map[string]string, site string, why string) {
+	p := w.Pkg(rel)
+	if p == nil {
+		return nil, "-", "package " + rel + " not found"
+	}
+	ts := c07HashTables(w)
+	var mine []*c07HashTable
+	for _, t := range ts.Tables {
+		if t.pkg() == p.Pkg {
+			mine = append(mine, t)
+		}
+	}
+	if len(mine) == 0 {
+		seen := map[*c07HashTable]bool{}
+		for _, a := range ts.Apps {
+			if fnPkg(a.In) == p.Pkg && !seen[a.Table] {
+				seen[a.Table] = true
+				mine = append(mine, a.Table)
+			}
+		}
+	}
+	if len(mine) == 0 {
+		return nil, "-", "package " + rel + " neither declares nor applies a crypto.Hash -> digest.Algorithm table (map or function)"
+	}
+	site = w.Pos(mine[0].pos())
+	for _, t := range mine {
+		if t.Rel == nil {
+			return nil, site, t.Why
+		}
+		if !c07SameRelation(t.Rel, mine[0].Rel) {
+			return nil, site, fmt.Sprintf("%s says %v, %s says %v", mine[0].name(), mine[0].Rel, t.name(), t.Rel)
+		}
+	}
+	return mine[0].Rel, site, ""
+}
+
+func c07SameRelation(a, b map[string]string) bool {
+	if a == nil || b == nil || len(a) != len(b) {
+		return false
+	}
+	for k, v := range a {
+		if bv, ok := b[k]; !ok || bv != v {
+			return false
+		}
+	}
+	return true
+}
+
+// ---- the digest algorithm a generator is invoked with ---------------------------------------
+
+// c07GenCall: one invocation of a BlobDescriptorGenerator value.
+type c07GenCall struct {
+	Call *ssa.Call
+	In   *ssa.Function
+}
+
+func c07GeneratorCalls(w *World) []c07GenCall {
+	var out []c07GenCall
+	for _, fn := range w.Funcs {
+		for _, ci := range allCalls(fn) {
+			call, ok := ci.(*ssa.Call)
+			if !ok || call.Call.IsInvoke() || staticCallee(call) != nil || len(call.Call.Args) != 1 {
+				continue
+			}
+			if namedOf(call.Call.Value.Type()) == "ngo.BlobDescriptorGenerator" {
+				out = append(out, c07GenCall{call, fn})
+			}
+		}
+	}
+	return out
+}
+
+// c07AppliedTable: one origin of the algorithm a generator is invoked with, decided.
+type c07AppliedTable struct {
+	App   *c07TableApp
+	Key   string // the key, in the vocabulary of the invoking function
+	Found bool   // the facts that hold whenever this origin is the one that arrives include "the key was found"
+}
+
+// c07GeneratorArgument decides what a generator invocation is handed: every origin (c07OriginsUntil: through locals, phis
+// and module helpers, each with the facts that hold when it is the one that arrives) must be an application of a hash
+// table whose relation is `want` (the relation the table rules have checked). why != "" names the first origin that is not.
+//
+// Why this is the clause: "the digest algorithm is R[k]" speaks of the value, not of the statement that computes it —
+// the application may stand in the invoking function or in a module helper whose result (under a nil error, delivered
+// by its success exits only) is handed to the generator; the key and the found-fact are rewritten into the invoking
+// function's vocabulary (callee parameters = call arguments), so they can be compared with what that function was given.
+func c07GeneratorArgument(w *World, gc c07GenCall, want map[string]string) (apps []c07AppliedTable, why string) {
+	ts := c07HashTables(w)
+	byVal := map[ssa.Value]*c07TableApp{}
+	for _, a := range ts.Apps {
+		if a.Val != nil {
+			byVal[a.Val] = a
+		}
+	}
+	root := &c07Frame{Fn: gc.In}
+	origins, complete := c07OriginsUntil(w, root, gc.Call.Call.Args[0], w.Info(gc.In).GuardsOf(gc.Call), func(v ssa.Value) bool { return byVal[v] != nil })
+	if !complete {
+		return nil, "the argument is too deep to follow"
+	}
+	for _, o := range origins {
+		a := byVal[o.V]
+		if a == nil {
+			return nil, "the generator may be invoked with " + o.F.lift(desc(o.V)) + ", which is not a hash table applied to a key"
+		}
+		if a.Table.Rel == nil {
+			return nil, "the relation of " + a.Table.name() + " cannot be read: " + a.Table.Why
+		}
+		if !c07SameRelation(a.Table.Rel, want) {
+			return nil, fmt.Sprintf("%s carries %v, not the relation of the signer's and verifier's tables %v", a.Table.name(), a.Table.Rel, want)
+		}
+		at := c07AppliedTable{App: a, Key: o.F.lift(desc(a.Key))}
+		for _, l := range a.foundLabels() {
+			l = o.F.lift(l)
+			if labelHas(o.Guards, l) {
+				at.Found = true
+			} else if tw, ok := labelTwin(l); ok && labelHas(o.Guards, tw) {
+				at.Found = true
+			}
+		}
+		apps = append(apps, at)
+	}
+	if len(apps) == 0 {
+		return nil, "no value reaches the invocation"
+	}
+	return apps, ""
+}
+
+// c07KeyOfObtainedKeySpec: the key of the application is hash(signatureAlgorithm(ks)) where ks is result 0 of a call that
+// yields (KeySpec, error) — the key spec asked from the signing key / the plugin — and that call's error is known nil where
+// the table is applied. Used for a signing function that is not handed the key spec but obtains it itself (the helper
+// that was handed it written out in place): "the key spec the function was given" then reads "the key spec the function
+// obtained"; a key spec written down in the function (a literal, a constant hash) does not qualify.
+func c07KeyOfObtainedKeySpec(w *World, a *c07TableApp) bool {
+	hc, ok := loadOrigin(unwrap(a.Key)).(*ssa.Call)
+	if !ok || calleeName(hc) != "(core/internal/algorithm.Algorithm).Hash" || len(hc.Call.Args) != 1 {
+		return false
+	}
+	sc, ok := loadOrigin(hc.Call.Args[0]).(*ssa.Call)
+	if !ok || calleeName(sc) != "(core/internal/algorithm.KeySpec).SignatureAlgorithm" || len(sc.Call.Args) != 1 {
+		return false
+	}
+	ex, ok := loadOrigin(sc.Call.Args[0]).(*ssa.Extract)
+	if !ok || ex.Index != 0 {
+		return false
+	}
+	src, ok := ex.Tuple.(*ssa.Call)
+	if !ok {
+		return false
+	}
+	tup, ok := src.Type().(*types.Tuple)
+	if !ok || tup.Len() != 2 || !isErrorType(tup.At(1).Type()) {
+		return false
+	}
+	if t := namedOf(tup.At(0).Type()); t != "core/internal/algorithm.KeySpec" && t != "core/signature.KeySpec" {
+		return false
+	}
+	return labelHas(w.Info(a.In).GuardsOf(a.At), "EQ("+desc(src)+"#err,nil)")
 }
